@@ -308,7 +308,7 @@ class CustomParser(Parser):
 
 # A bare URL or email address (GFM extended autolink) at the end of the text.
 _bare_autolink_at_end_re = re.compile(
-    r"(?:^|\s)(?:(?:https?://|ftp://|www\.)\S+|[\w.+-]+@[\w-]+(?:\.[\w-]+)+)$"
+    r"(?:^|[\s(*_~])(?:(?:https?://|ftp://|www\.)\S+|[\w.+-]+@[\w-]+(?:\.[\w-]+)+)$"
 )
 
 
